@@ -143,6 +143,8 @@ pub struct Sim {
     pub dirty: bool,
     /// per client: tick -> number of mutate messages that left the server / were handed to the client / notifications
     pub mut_sent: Vec<BTreeMap<u32, u32>>,
+    /// per client: mutate tick -> update tick the client must have reached before that tick's messages can be applied
+    pub mut_req_upd: Vec<BTreeMap<u32, u32>>,
     pub mut_delivered: Vec<BTreeMap<u32, u32>>,
     pub tick_fired: Vec<BTreeMap<u32, u32>>,
     pub tick_log_pos: Vec<usize>,
@@ -267,6 +269,7 @@ impl Sim {
             running: true,
             dirty: false,
             mut_sent: vec![BTreeMap::new(); n],
+            mut_req_upd: vec![BTreeMap::new(); n],
             mut_delivered: vec![BTreeMap::new(); n],
             tick_fired: vec![BTreeMap::new(); n],
             tick_log_pos: vec![0; n],
@@ -687,6 +690,7 @@ impl Sim {
         self.snap_struct[i].clear();
         self.upd_sent[i].clear();
         self.mut_sent[i].clear();
+        self.mut_req_upd[i].clear();
         self.mut_delivered[i].clear();
         self.tick_fired[i].clear();
         self.tick_log_pos[i] = self.clients[i].app.world().resource::<TickLog>().0.len();
@@ -1693,6 +1697,14 @@ impl Sim {
                 *self.mut_sent[ci].entry(t).or_default() += 1;
             }
             oracle::check_sent(self, ci, *ch, msg);
+        }
+        for ci in 0..mut_count.len() {
+            if mut_count[ci] > 0 {
+                // a mutate message of tick t can only be applied once the client has the update message the server had sent
+                // to it last when t's messages left
+                let req = self.last_update_sent[ci];
+                self.mut_req_upd[ci].insert(t, req);
+            }
         }
         self.mut_msgs_last_frame = mut_count;
         if self.cfg.vis != 0 && self.or.isvis {
